@@ -137,7 +137,7 @@ def coq_deps(vfile):
     return sorted(seen)
 
 
-def proof_obligations(prop, timeout=1500):
+def proof_obligations(prop, timeout=1500, extra_targets=()):
     """Build Properties/<prop>.vo, list its theorems and their Print Assumptions output."""
     pfile = os.path.join(COQ, "Properties", prop + ".v")
     res = dict(obligations=0, discharged=0, theorems=[], axioms={}, ok=False, log="",
@@ -150,7 +150,7 @@ def proof_obligations(prop, timeout=1500):
     res["theorems"] = thms
     res["obligations"] = len(thms)
     res["scan"] = source_scan(coq_deps(pfile))
-    ok, out, cmd = coq_make(["Properties/%s.vo" % prop], timeout=timeout)
+    ok, out, cmd = coq_make(["Properties/%s.vo" % prop] + list(extra_targets), timeout=timeout)
     res["checker_cmd"] = "cd /verif/coq && " + cmd
     res["log"] = out[-4000:]
     if not ok:
@@ -298,7 +298,7 @@ def replay_path(prop, obj):
     os.makedirs(REPLAYS, exist_ok=True)
     h = hashlib.sha1(json.dumps(obj, sort_keys=True, default=str).encode()).hexdigest()[:10]
     p = os.path.join(REPLAYS, "%s_%s.json" % (prop, h))
-    json.dump(obj, open(p, "w"), indent=1, default=str)
+    json.dump(json_safe(obj), open(p, "w"), indent=1)
     return p
 
 
@@ -319,6 +319,28 @@ def report_violation(ctx, what, replay_obj, key=None, found_input=True):
     ctx.violations.append(dict(replay=p, what=what, key=key, found_input=found_input))
 
 
+def json_safe(o):
+    """strict JSON: no NaN/Infinity tokens, no numpy scalars."""
+    import math
+    if isinstance(o, dict):
+        return {str(k): json_safe(v) for k, v in o.items()}
+    if isinstance(o, (list, tuple)):
+        return [json_safe(v) for v in o]
+    if isinstance(o, float):
+        return o if math.isfinite(o) else repr(o)
+    if isinstance(o, (str, int, bool)) or o is None:
+        return o
+    try:
+        import numpy as np
+        if isinstance(o, np.generic):
+            return json_safe(o.item())
+        if isinstance(o, np.ndarray):
+            return json_safe(o.tolist())
+    except ImportError:
+        pass
+    return str(o)
+
+
 def finish(ctx, level, coverage, assumptions):
     """Write evidence, print verdict lines, return exit code."""
     seen = set()
@@ -333,7 +355,7 @@ def finish(ctx, level, coverage, assumptions):
     if ctx.known_hits:
         ev["coverage"]["known_findings_hit"] = sorted(seen)
     os.makedirs(EVID, exist_ok=True)
-    json.dump(ev, open(os.path.join(EVID, ctx.prop + ".json"), "w"), indent=1, default=str)
+    json.dump(json_safe(ev), open(os.path.join(EVID, ctx.prop + ".json"), "w"), indent=1, allow_nan=False)
     printed = set()
     for v in ctx.violations:
         if v["replay"] in printed:
